@@ -32,3 +32,37 @@ Proof.
   exists (TScaled s01 fzero (fmk 500000000000000 0)), 4167494598637787%Z.
   split; vm_compute; reflexivity.
 Qed.
+
+(* finding scaled-limit-window: ScaledInteger(0.1558078597897119, 295803178462522.9, ...): the lower limit is not a grid
+   point (min/scale = ...871.5), the lowest grid value 1898512558106872 * scale (index about 2^50.75, well below 2^51)
+   is exported correctly, but validate refuses it on import: min - scale rounds to the same double as the value, so
+   the window test min - scale < value fails *)
+Definition sw_s : f64 := fmk 701696219290341 (-52).
+Definition sw_mn : f64 := fmk 2366425427700183 (-3).
+Definition sw_mx : f64 := fmk 4732850855402859 (-4).
+Theorem C02_refuted_scaled_window :
+  exists d v k, valid d v = true /\ (Z.abs k <= 2 ^ 51)%Z /\
+    res_same (dt_export C0 d v) (Ok (PInt k)) = true /\ res_same (wire E0 d (PInt k) PNone) (Err ERange) = true.
+Proof.
+  exists (TScaled sw_s sw_mn sw_mx), (PFloat (fmk 1183212713850091 (-2))), 1898512558106872%Z.
+  repeat split; vm_compute; try reflexivity; discriminate.
+Qed.
+
+(* finding scaled-text-regrid: ScaledInteger(0.3, 0, 300000): the grid value 333334 * 0.3 = 100000.2 has the six digit
+   text "100000"; from_string reads 100000 and __call__ puts it on the grid again: 333333 * 0.3 = 99999.9, whose
+   text is "99999.9" - not the identical text form (below 10^5 the six digit unit is finer than the grid) *)
+Definition s03 : f64 := fmk 5404319552844595 (-54).
+Definition T1 : tables :=
+  {| t_b64 := [];
+     t_fmt := [(fmk 6871961417495347 (-36), [49;48;48;48;48;48]%N); (fmk 3435970400826163 (-35), [57;57;57;57;57;46;57]%N)];
+     t_repr := [];
+     t_lit := [([49;48;48;48;48;48]%N, PInt 100000)] |}.
+Definition C1 : codec := codec_of T1.
+Theorem C02_refuted_scaled_text :
+  exists d v t w t', valid d v = true /\ to_string C1 d v = Ok t /\ from_string C1 d t = Ok w /\
+                     to_string C1 d w = Ok t' /\ str_eqb (render t) (render t') = false.
+Proof.
+  exists (TScaled s03 fzero (fmk 9375 5)), (PFloat (fmul (of_Z 333334) s03)), (PA [49;48;48;48;48;48]%N),
+    (PFloat (fmul (of_Z 333333) s03)), (PA [57;57;57;57;57;46;57]%N).
+  repeat split; vm_compute; reflexivity.
+Qed.
